@@ -67,6 +67,11 @@ DECOYS = _mk_decoys() + (
     b"\x8b" + len(_HB).to_bytes(4, "little") + _HB + b".",
     b"N." + b"L1" + b"0" * 5000 + b"L\n.",
     b"L-1" + b"0" * 5000 + b"L\n.",
+    # many discarded call results (more unused variables than any report limit one might think of)
+    b"".join(b"cos\ngetpid\n)R0" for _ in range(70)) + b"N.",
+    b"(" + b"".join(b"ccollections\nOrderedDict\n)R" for _ in range(130)) + b"0" * 129 + b"0N.",
+    # calls whose source text is between 33 and 150 characters long (what a report may abbreviate)
+    b"".join(b"cbuiltins\nprint\n(S'" + ch * n + b"'\ntR0" for ch, n in ((b"a", 40), (b"b", 40), (b"c", 90), (b"d", 140))) + b"N.",
 )
 
 QUERIES = ("source", "safety", "safety_custom", "trace", "interp_custom", "trace_custom", "has_import", "has_call", "has_nss_call", "imports",
@@ -400,6 +405,12 @@ def _child_digests(corpus, hashseed, reverse=False):
     e = dict(os.environ)
     e["PYTHONHASHSEED"] = hashseed
     e["VERIF_REPO"] = env.REPO
+    if reverse:
+        # ... nor on the size of the terminal the process believes it has
+        e["COLUMNS"], e["LINES"] = "200", "60"
+    else:
+        e.pop("COLUMNS", None)
+        e.pop("LINES", None)
     e.pop("PYTHONOPTIMIZE", None)
     p = subprocess.run(
         # the second interpreter also runs with assertions disabled (python -O): answers may not
@@ -524,7 +535,7 @@ def run_shard(spec, seed):
                     Failure(
                         {"hex": data.hex(), "context": ctx},
                         f"answers for {data!r} differ between two fresh processes (PYTHONHASHSEED 0 "
-                        "vs 4242, corpus analysed front-to-back vs back-to-front)"
+                        "vs 4242, corpus analysed front-to-back vs back-to-front, python vs python -O, terminal size unset vs 200x60)"
                         + (f"; analysing {bytes.fromhex(ctx[0])!r} first is enough to change them" if ctx else ""),
                     )
                 )
